@@ -6,7 +6,7 @@ from fractions import Fraction as F
 from . import desc as D, tlc
 from .absval import Q, NAN, PINF, NINF, to_tla
 
-INV_SEM = ["SemInv", "WFInv", "Comm", "Unit"]
+INV_SEM = ["SemInv", "WFInv", "Comm", "Unit", "RoundTrip"]
 INV_LAWS = ["Assoc", "ScaleLaws", "NullWeights", "FillCommutes", "BatchSplit"]
 INVARIANTS = INV_SEM
 
